@@ -42,8 +42,9 @@ def handle : List String → Option String
     if g.ret != jaccardBits a b then pure s!"FAIL generated c_jaccarddist = {g.ret.toNat}, model = {(jaccardBits a b).toNat}" else
     pure (expect (toString g.ret.toNat) real)
   | ["gen.facts"] =>
-    pure (verdict (GambitV.Gen.prangeWritesOnlyOwnCell && GambitV.Gen.jaccardIsOneMinusDist && GambitV.Gen.jaccarddistIsKernel && GambitV.Gen.prangeBodyIsSliceDist)
-      s!"structural facts of metric.pyx: prangeWritesOnlyOwnCell={GambitV.Gen.prangeWritesOnlyOwnCell} jaccardIsOneMinusDist={GambitV.Gen.jaccardIsOneMinusDist} jaccarddistIsKernel={GambitV.Gen.jaccarddistIsKernel} prangeBodyIsSliceDist={GambitV.Gen.prangeBodyIsSliceDist}")
+    pure (verdict (GambitV.Gen.prangeWritesOnlyOwnCell && GambitV.Gen.jaccardIsOneMinusDist && GambitV.Gen.jaccarddistIsKernel && GambitV.Gen.prangeBodyIsSliceDist
+        && GambitV.Gen.kmerLenGuard == 32 && GambitV.Gen.kmerRcLenGuard == 32 && GambitV.Gen.kmerWrappersCanonical && GambitV.Gen.decodeWrapperCanonical && GambitV.Gen.revcompWrapperCanonical)
+      s!"structural facts of metric.pyx: prangeWritesOnlyOwnCell={GambitV.Gen.prangeWritesOnlyOwnCell} jaccardIsOneMinusDist={GambitV.Gen.jaccardIsOneMinusDist} jaccarddistIsKernel={GambitV.Gen.jaccarddistIsKernel} prangeBodyIsSliceDist={GambitV.Gen.prangeBodyIsSliceDist}; kmers.pyx wrappers: guard={GambitV.Gen.kmerLenGuard}/{GambitV.Gen.kmerRcLenGuard} canonical={GambitV.Gen.kmerWrappersCanonical} {GambitV.Gen.decodeWrapperCanonical} {GambitV.Gen.revcompWrapperCanonical}")
   | _ => none
 
 end Driver.Gen
